@@ -28,7 +28,10 @@ RULE = ("Layouts: 2-9 frames on the model time grid with spacings from 1 step up
         "offset between frames and continued to the last frame, forward and reversed, with and without a scalar field; "
         "an exact stream (frame values = cumulative sums of spacing x dyadic slope, so every float operation is exact; "
         "compared with Qeq) and a general stream (random decimal values; tolerance 1e-9). Observed at every step: "
-        "velocity at fractions 0, 1/2, 1, variables[u], scalar. Thorough: the complete family of layouts with <= 5 "
+        "velocity at fractions 0, 1/2, 1, variables[u], scalar. Particle schedules: one particle from step 0 on; "
+        "state EMPTY for the first m steps (m from 1 to several frame intervals) and a particle released later; "
+        "particle removed for a stretch of steps and another released afterwards - Forcing.update runs at every step, "
+        "the Coq machine is stepped for all steps and compared on the steps with a particle. Thorough: the complete family of layouts with <= 5 "
         "frames and spacings <= 4 steps, and with 6 frames and spacings <= 3 steps (<= 4 with C03_FULL=1), each split in "
         "every way into <= 3 files, every start offset, both directions. "
         "Non-trivial = a run with at least one hand-over at a frame step after step 0 and a slope change; "
@@ -151,7 +154,13 @@ def gen_cases(ctx):
         # offsets that start exactly on an inner frame (counted from the first frame / from the last when reversed)
         cum = list(itertools.accumulate(spacings))[:-1] + list(itertools.accumulate(reversed(spacings)))[:-1]
         offs = sorted(set(offs + [c for c in cum if rng.random() < 0.5]))
-        out.append(family(spacings, parts, scalar, exact, uv, tv, offsets=offs))
+        fam = family(spacings, parts, scalar, exact, uv, tv, offsets=offs)
+        for k, lay in enumerate(fam["batch"]):
+            nst = abs(lay["stop"] - lay["start"]) // lay["dt"]
+            pres = schedule(rng, nst, ["late", "always", "gap", "late"][(q + k) % 4])
+            if pres:
+                lay["present"] = pres
+        out.append(fam)
     if not ctx.quick:
         for k, fam in enumerate(out):
             fam["bid"] = k
@@ -171,6 +180,10 @@ def encode(lay, scalar, exact, got):
         for t, uv, tv in frames:
             ints += [int(t), *fl(uv), *fl(tv)]
     for row in got:
+        if row.get("absent"):
+            ints += [0] + [0, 1] * 5
+            continue
+        ints.append(1)
         for x in row["u"]:
             ints += fl(x)
         ints += fl(row["uvar"])
@@ -184,6 +197,8 @@ def compare(lay, scalar, got, tol):
     if len(got) != len(want):
         return f"{len(got)} steps observed, {len(want)} expected"
     for g, w in zip(got, want):
+        if g.get("absent"):  # no particle alive: nothing is in force on anything at this step
+            continue
         for f, a, b in zip(FRACTIONS, g["u"], w["u"]):
             if not abs(a - b) <= tol:
                 return (f"step {g['step']}: velocity(fraction {f}) = {a!r}, linear interpolation between the "
@@ -209,7 +224,7 @@ def nontrivial_key(lay, scalar):
         s2 = (frames[j + 1][1] - frames[j][1]) / (frames[j + 1][0] - frames[j][0])
         if inside and 0 < step < nsteps and s1 != s2:
             return json.dumps([lay.get("key") or [lay["start"], lay["stop"], [[f[0] for f in fl_] for fl_ in lay["files"]]],
-                               scalar])
+                               scalar, lay.get("present")])
     return None
 
 
@@ -220,15 +235,72 @@ def run_one(d, lay, scalar, exact, files_ready=False):
 
 
 def trace(d, lay, scalar, files_ready):
-    """c03_impl.trace; when the files of this batch are already written only the objects are rebuilt"""
-    if not files_ready:
-        return c3.trace(d, lay, FRACTIONS, scalar)
-    orig = c3.write_layout
-    c3.write_layout = lambda dd, layout, dtype="f8": sorted(dd.glob("forcing_*.nc"))
+    """c03_impl.trace extended with a particle schedule: lay["present"][n] tells whether a particle is alive at
+    step n (default: one particle from step 0 on).  Forcing.update runs at every step as in Model.update; on
+    steps without a particle nothing can be sampled and the row is marked absent.  The files of a batch are
+    written once."""
+    import numpy as np
+    import romsfiles as rf
+    from ladim.ROMS import Forcing, Grid
+    from ladim.state import State
+    from ladim.timekeeper import TimeKeeper
+
+    names = sorted(d.glob("forcing_*.nc")) if files_ready else c3.write_layout(d, lay)
+    tk = TimeKeeper(start=rf.iso(lay["start"]), stop=rf.iso(lay["stop"]), dt=lay["dt"],
+                    time_reversal=bool(lay["reversed"]))
+    st = State(instance_variables={"temp": float} if scalar else None)
+    grid = Grid(filename=names[0])
+    mods = {"time": tk, "state": st, "grid": grid}
+    present = lay.get("present") or [1] * tk.Nsteps
+
+    def release():
+        st.append(X=np.array([2.25]), Y=np.array([2.5]), Z=np.array([10.0]), **({"temp": 0.0} if scalar else {}))
+
+    if present[0]:
+        release()
+    force = Forcing(mods, filename=str(d / "forcing_*.nc"), extra_forcing=["temp"] if scalar else None)
+    mods["forcing"] = force
+    out = []
     try:
-        return c3.trace(d, lay, FRACTIONS, scalar)
+        for n in range(tk.Nsteps):
+            tk.update()
+            want = bool(present[n]) if n < len(present) else True
+            if want and len(st) == 0:
+                release()
+            elif not want and len(st) > 0:
+                st["alive"] = np.zeros(len(st), dtype=bool)
+                st.compactify()
+            force.update()
+            if not want:
+                out.append({"step": n, "absent": True})
+                continue
+            row = {"step": n, "u": [], "v": []}
+            for f in FRACTIONS:
+                U, V = force.velocity(st.X, st.Y, st.Z, fractional_step=f)
+                row["u"].append(float(U[0]))
+                row["v"].append(float(V[0]))
+            row["uvar"] = float(force.variables["u"][0])
+            if scalar:
+                row["temp"] = float(force.variables["temp"][0])
+            out.append(row)
     finally:
-        c3.write_layout = orig
+        try:
+            force.close()
+        except Exception:  # noqa: BLE001
+            pass
+    return out
+
+
+def schedule(rng, nsteps, kind):
+    """particle schedules: empty for the first m steps, or present / removed for a stretch / released again"""
+    if nsteps < 2 or kind == "always":
+        return None
+    if kind == "late":
+        m = rng.randint(1, nsteps - 1)
+        return [0] * m + [1] * (nsteps - m)
+    a = rng.randint(1, nsteps - 1)          # first step without a particle
+    b = rng.randint(a + 1, max(a + 1, nsteps - 1))   # first step with a particle again (none when b = nsteps)
+    return [1] * a + [0] * (b - a) + [1] * (nsteps - b)
 
 
 _counter = itertools.count()
@@ -281,11 +353,14 @@ def evaluate(desc, d):
                 keys.append(key)
             if k < 2:
                 summary.append({"start": lay["start"], "rev": lay["reversed"],
-                                "u": [r["u"] for r in got[:6]], "temp": [r.get("temp") for r in got[:6]]})
+                                "present": lay.get("present"),
+                                "u": [r.get("u") for r in got[:6]], "temp": [r.get("temp") for r in got[:6]]})
     finally:
         shutil.rmtree(d, ignore_errors=True)
     nfiles = len(lays[0]["files"])
     kind = ("exact" if exact else "general") + ("-scalar" if scalar else "-noscalar") + f"-{nfiles}file"
+    if any(lay.get("present") for lay in lays):
+        kind += "-emptysteps"
     return {"ints": ints, "oracle": "; ".join(problems[:3]) or None,
             "nontrivial": (tuple(keys) if keys else None), "kind": kind, "observed": summary,
             "layouts": len(lays), "nontrivial_layouts": len(keys)}
